@@ -113,6 +113,9 @@ def _selector_state(p, adt):
             st = (st or "some") if some else "none"
         elif a[0] == "call" and a[1].endswith("::is_empty") and mentions(a[2][0], lambda y: y[0] == "field" and y[2] == "css_selector"):
             st = "empty" if v == 1 else ("nonempty" if st in (None, "some", "nonempty") else st)
+        elif a[0] == "call" and "PartialEq" in a[1] and len(a[2]) == 2 and any(x == ("const", "") for x in a[2]) and any(mentions(x, lambda y: y[0] == "field" and y[2] == "css_selector") for x in a[2]):
+            is_eq = bool(v) if a[1].endswith("::eq") else not bool(v)  # `Some("") => ..`: compared with the empty string
+            st = "empty" if is_eq else ("nonempty" if st in (None, "some", "nonempty") else st)
         elif a[0] == "call" and a[1] == EVAL:
             st = "match" if v == 1 else "nomatch"
     return st
@@ -524,7 +527,7 @@ def r15_7(ctx):
                         okl = mentions(d.get("tag_name"), lambda y: y == ("param", 2)) and mentions(d.get("previous"), lambda y: y[0] == "field" and y[2] == "current_buffer")
         r.ob("wiring:buffer-link", okl, f.site, "a new buffer remembers the tag that opened it and chains the buffer that was current")
 
-        g = F.method(HF, "on_end_tag_token")
+        g = F.loop_form(F.method(HF, "on_end_tag_token"))  # (`is_some_and(|link| link.tag_name == tag_name)` written out)
         r.analysed(g)
         bad = []
         rows = {}
